@@ -123,10 +123,10 @@ def run(cx):
                     sends.append((loc, "resend in %s" % arm))
             if not sends:
                 inst.violation(b.path, "resend in " + arm, "no resend in the %s arm (anchor)" % arm)
-            cx.guard(inst, b, sends, [[r"ne\(0,var\d+\.resend_count\)", r"le\(var\d+\.resend_time_ms,arg2\)"]], construct="resend in " + arm,
+            cx.guard(inst, b, sends, [[r"ne\(0,[\w.@]+\.resend_count\)", r"le\([\w.@]+\.resend_time_ms,arg2\)"]], construct="resend in " + arm,
                      why="a retry is sent only when due and while retries remain")
-            decs = [l for l, node, ps in b.field_writes(r"var\d+\.resend_count") if re.fullmatch(r"sub\(var\d+\.resend_count,1\)", show(b.rvalue_expr(node["rv"])))]
-            tms = [l for l, node, ps in b.field_writes(r"var\d+\.resend_time_ms") if re.fullmatch(rx_comm("add", "arg2", re.escape(const)), show(b.rvalue_expr(node["rv"])))]
+            decs = [l for l, node, ps in b.field_writes(r"[\w.@]+\.resend_count") if re.fullmatch(r"sub\([\w.@]+\.resend_count,1\)", show(b.rvalue_expr(node["rv"])))]
+            tms = [l for l, node, ps in b.field_writes(r"[\w.@]+\.resend_time_ms") if re.fullmatch(rx_comm("add", "arg2", re.escape(const)), show(b.rvalue_expr(node["rv"])))]
             cx.followed_by(inst, b, sends, decs, "resend without count decrement in " + arm, "resend_count -= 1")
             cx.followed_by(inst, b, sends, tms, "resend without rescheduling in " + arm, "resend_time_ms = now + interval")
             tos = []
@@ -136,7 +136,7 @@ def run(cx):
                     tos.append((loc, "Error(Timeout) in %s" % arm))
             if not tos:
                 inst.violation(b.path, "timeout in " + arm, "no Error(Timeout) in the %s arm (anchor)" % arm)
-            cx.guard(inst, b, tos, [[r"eq\(0,var\d+\.resend_count\)", r"le\(var\d+\.resend_time_ms,arg2\)"]], construct="Error(Timeout) in " + arm,
+            cx.guard(inst, b, tos, [[r"eq\(0,[\w.@]+\.resend_count\)", r"le\([\w.@]+\.resend_time_ms,arg2\)"]], construct="Error(Timeout) in " + arm,
                      why="the attempt may be abandoned only after all retries are used and the last interval elapsed")
         # initial values (client)
         for fn, adt, cnt, itv in (("client::Client::connect", "PendingState", "client::HANDSHAKE_RESEND_COUNT", "client::HANDSHAKE_RESEND_INTERVAL_MS"),
